@@ -149,6 +149,21 @@ theorem join_flush_no_panic (cfg : JCfg) (ops : List JOp) :
   simp only []
   exact ⟨by rw [r1, f1]; rfl, f2⟩
 
+/-- **DeleteGroup is safe** — a `DeleteGroupMessage` drops the group with whatever it had buffered (by design:
+the group expired); from the resulting state every further sequence of points and barriers still never
+dereferences a missing queue, and Finish still leaves no pending set. -/
+theorem join_delete_then_flush_no_panic (cfg : JCfg) (before after : List JOp) (grp : String) :
+    let nd := ((JNode.runOps cfg JNode.init before).1.delete grp)
+    (JNode.runOps cfg nd after).2.2 = Status.ok ∧
+    (JNode.finish (JNode.runOps cfg nd after).1.groups).2.2 = Status.ok ∧
+    ∀ p ∈ (JNode.finish (JNode.runOps cfg nd after).1.groups).1, p.2.sets = [] := by
+  intro nd
+  have h0 := (JNode.runOps_ok cfg before JNode.init (by intro p hp; simp [JNode.init] at hp)).2
+  have h1 := JNode.delete_nodeInv _ grp h0
+  obtain ⟨r1, r2⟩ := JNode.runOps_ok cfg after nd h1
+  obtain ⟨f1, f2⟩ := JNode.finish_ok _ r2
+  exact ⟨r1, f1, f2⟩
+
 /-- Non-vacuity: a run with a barrier, a lagging parent and a flush that emits three sets. -/
 example : let cfg : JCfg := { parents := 2, tol := 0, fill := .null, names := ["a", "b"], delim := ".", sname := "" }
     let m (t : Int) : JMsg := { time := t, name := "m", grp := "", byName := false, dims := [], tags := [], fields := [("v", "i:1")] }
